@@ -1,4 +1,5 @@
 import Driver.RW
+import Driver.IRPrint
 import EoVerif.Model.GenExec
 import EoVerif.Spec.Protocol
 import EoVerif.Lemmas.RoundTripDefs
@@ -156,6 +157,11 @@ def handleGen (gs : GenState) : List String → GenState × String
         ++ " packet " ++ (match c.packet with
           | some p => s!"{p.family}:{p.familyOrdinal}:{p.action}:{p.actionOrdinal}"
           | none => "-"))
+  | ["ir", cls] =>
+    -- the instruction IR of a class, for the structural tie with the emitted Python text (harness/pyir.py)
+    match gs.out.bind (·.findClass? cls) with
+    | none => (gs, "no-class")
+    | some c => (gs, "ok " ++ classIRStr c)
   | "new" :: cls :: n :: ts =>
     match gs.out.bind (·.findClass? cls), n.toNat? with
     | some c, some n =>
